@@ -1127,7 +1127,15 @@ class Evaluator:
                 outs.append((s, ("dictlit", tuple(zip(vals[:n], vals[n:])))))
             return outs
         if isinstance(e, (ast.ListComp, ast.SetComp, ast.GeneratorExp, ast.DictComp)):
-            return [(state, self.eval_comp(e, state, func))]
+            # the first generator's iterable is evaluated path by path (a callee that can raise yields a raising path, not a
+            # case distinction buried in the comprehension)
+            outs = []
+            for s_i, it_i in self.eval(e.generators[0].iter, state, func):
+                if it_i[0] == "bottom":
+                    outs.append((s_i, it_i))
+                else:
+                    outs.append((s_i, self.eval_comp(e, s_i, func, first_iter=it_i)))
+            return outs
         if isinstance(e, ast.Subscript):
             outs = []
             for s, b in self.eval(e.value, state, func):
@@ -1472,12 +1480,12 @@ class Evaluator:
         return ("isnone", x)
 
     # -------------------------------------------------------------- comprehensions
-    def eval_comp(self, e, state: State, func: Func) -> Term:
+    def eval_comp(self, e, state: State, func: Func, first_iter: Term | None = None) -> Term:
         kind = {ast.ListComp: "list", ast.SetComp: "set", ast.GeneratorExp: "gen", ast.DictComp: "dict"}[type(e)]
         s = state.fork()
         gens = []
-        for g in e.generators:
-            it = self.eval1(g.iter, s, func)
+        for gi, g in enumerate(e.generators):
+            it = first_iter if (gi == 0 and first_iter is not None) else self.eval1(g.iter, s, func)
             pat = self._bind_target(g.target, s)
             self._type_bound(pat, it)
             conds = tuple(self.as_cond(self.eval1(c, s, func)) for c in g.ifs)
@@ -1634,6 +1642,16 @@ class Evaluator:
             pre_kwargs = dict(f[3])
             pre_kwargs.update(kwargs)
             return self.apply(inner, pre_args + args, pre_kwargs, state, func, line, e, stmt_ctx)
+        if h == "ite":
+            # (f if c else g)(args): the call distributes over the choice of callee
+            out = []
+            for br, cnd in ((f[2], f[1]), (f[3], self.negate(f[1]))):
+                s_b = state.assume(cnd)
+                if self.infeasible(s_b.conds):
+                    continue
+                out.extend(self.apply(br, list(args), dict(kwargs), s_b, func, line, e, stmt_ctx))
+            if out:
+                return out
         if h in ("meth", "call", "index", "var", "unknown", "ite", "orelse"):
             self.calls_unresolved += 1
             return [(state, ("apply", f, tuple(args), tuple(sorted(kwargs.items()))))]
